@@ -175,7 +175,7 @@ func main() {
 			m["byte_alphabet"] = len(alphabet)
 			return m
 		},
-		QuickBudget:    4 * time.Minute,
+		QuickBudget:    12 * time.Minute,
 		ThoroughBudget: 40 * time.Minute,
 	})
 }
